@@ -35,6 +35,8 @@ type Engine struct {
 	kf       *KnownFindings
 	loadErrs []string
 	repoDir  string
+	pureMemo map[string]bool
+	pureDefs []string
 }
 
 type GlobalInfo struct {
@@ -486,7 +488,7 @@ func (e *Engine) globalStore(u *Unit, fr *Frame, st *State, g *ssa.Global, v Ter
 }
 
 // globalAxioms: facts about package-level constants.
-func (e *Engine) globalAxioms(u *Unit) string {
+func (e *Engine) globalAxioms(u *Unit, byteHeapDeclared bool) string {
 	var sb strings.Builder
 	var sentinels []string
 	for _, gi := range e.globList {
@@ -513,7 +515,7 @@ func (e *Engine) globalAxioms(u *Unit) string {
 		}
 		if gi.HasBytes {
 			fmt.Fprintf(&sb, "(assert (and (= (slen %s) %d) (>= (scap %s) %d) (>= (soff %s) 0) (< (sarr %s) 0)))\n", c, len(gi.Bytes), c, len(gi.Bytes), c, c)
-			if h0, ok := u.init0[ecomp(SInt)]; ok {
+			if h0, ok := u.init0[ecomp(SInt)]; ok && byteHeapDeclared {
 				for i, b := range gi.Bytes {
 					fmt.Fprintf(&sb, "(assert (= (select (select %s (sarr %s)) (+ (soff %s) %d)) %d))\n", h0.S, c, c, i, b)
 				}
